@@ -575,16 +575,13 @@ class ConcurrentVector {
     if (e == pos) {
       return e;
     }
-    size_.fetch_sub(1, std::memory_order_relaxed);
-    --e;
-    if (e == pos) {
-      e->~T();
-      return e;
-    }
-    ++e;
     auto it = begin();
     it += (pos - it);
-    return std::move(pos + 1, const_iterator(e), it);
+    // Shift the tail down, then destroy the vacated last element.
+    auto newEnd = std::move(pos + 1, const_iterator(e), it);
+    newEnd->~T();
+    size_.fetch_sub(1, std::memory_order_relaxed);
+    return it;
   }
 
   /**
